@@ -11,6 +11,7 @@ pub const TABLE: &[(&str, &str)] = &[
     ("NBSP", "\u{a0}"),
     ("TSP", "\u{2009}"),
     ("E2", "\u{e9}"),
+    ("U2", "\u{c9}"),
     ("L2", "\u{e9}"),
     ("W2", "\u{a0}"),
     ("W3", "\u{2009}"),
@@ -58,6 +59,7 @@ pub fn char_to_sym(c: char) -> String {
         '\u{a0}' => "NBSP".into(),
         '\u{2009}' => "TSP".into(),
         '\u{e9}' => "E2".into(),
+        '\u{c9}' => "U2".into(),
         '\u{2014}' => "P3".into(),
         '\u{1f600}' => "E4".into(),
         '\u{ba}' => "DEG".into(),
